@@ -3,12 +3,13 @@ from .opcheck import OperatorCheck
 
 class C03(OperatorCheck):
     id = "C03"
+    b1_full_q2 = False
     cfgs = ("w-rc2", "w-z3")
     b3 = {
         "quick": [("L3", 4, 1, ("T21", 0)), ("L3MIX", 2, 1, ("T21", 0))],
         "thorough": [("L3", 4, 3, (2, 2)), ("L3T", 4, 1, (2, 2)), ("L3PLUS", 3, 1, (2, 2)), ("L3MIX", 3, 1, ("T21", 0)), ("L3", 5, 1, ("T21", 0))],
     }
-    rule = ("E-in: same named scopes as C01, both partial-MaxSAT back-ends (rc2, z3); oracle: preferred-structure "
+    rule = ("E-in: named scopes of C01 (quick: B1 x 89 semantic-class queries instead of all 264 syntactic ones), both partial-MaxSAT back-ends (rc2, z3); oracle: preferred-structure "
             "definition of System W (<_w over falsification-set tuples) by brute force over worlds. "
             "distinct_nontrivial = distinct (base, back-end, query) triples not decided by a vacuity rule with agreeing "
             "answers; counters report pairs where Z differs from W (incomparable falsification sets).")
